@@ -134,19 +134,30 @@ type childProc struct {
 	errBuf *tailBuf
 }
 
+// tailBuf keeps the first 2 KB and the last 6 KB of what is written to it.
 type tailBuf struct {
-	mu sync.Mutex
-	b  []byte
+	mu   sync.Mutex
+	head []byte
+	b    []byte
 }
 
 func (t *tailBuf) Write(p []byte) (int, error) {
 	t.mu.Lock()
+	n := len(p)
+	if room := 2048 - len(t.head); room > 0 {
+		k := room
+		if k > len(p) {
+			k = len(p)
+		}
+		t.head = append(t.head, p[:k]...)
+		p = p[k:]
+	}
 	t.b = append(t.b, p...)
-	if len(t.b) > 8192 {
-		t.b = t.b[len(t.b)-8192:]
+	if len(t.b) > 6144 {
+		t.b = t.b[len(t.b)-6144:]
 	}
 	t.mu.Unlock()
-	return len(p), nil
+	return n, nil
 }
 
 func startChild(name string, env []string) (*childProc, error) {
@@ -171,7 +182,7 @@ func startChild(name string, env []string) (*childProc, error) {
 func (p *childProc) stderrTail() string {
 	p.errBuf.mu.Lock()
 	defer p.errBuf.mu.Unlock()
-	return string(p.errBuf.b)
+	return string(p.errBuf.head) + string(p.errBuf.b)
 }
 
 func (p *childProc) kill() {
